@@ -51,6 +51,9 @@ func suiteKey(r *rng, n int) {
 		c.BodyBuffer = bytesBuf(c.Request.Method + "|" + c.Request.Host + "|" + c.Request.RequestURI)
 		return nil
 	})
+	// every (method, host, uri) triple is requested in one case only: a mutated URI that happens to equal the URI of
+	// another case would find that case's entry (a legitimate hit, but not what the pair is about)
+	used := map[string]bool{}
 	for i := 0; i < n; i++ {
 		cr := r.fork(uint64(i))
 		m1 := cr.pick([]string{"GET", "GET", "HEAD"})
@@ -81,6 +84,11 @@ func suiteKey(r *rng, n int) {
 				u2 = mutateURI(cr, u1)
 			}
 		}
+		if used[m1+" "+h1+" "+u1] || (kind != "same" && used[m2+" "+h2+" "+u2]) {
+			stat("pair-skipped-collision")
+			continue
+		}
+		used[m1+" "+h1+" "+u1], used[m2+" "+h2+" "+u2] = true, true
 		stat("pair-" + kind)
 		p.store.takeSets()
 		w1 := p.do(m1, h1, u1, http.Header{}, nil)
